@@ -144,9 +144,26 @@ def check_props(pid: str, timeout: int = 600) -> dict:
             closed += 1
         elif b.startswith("Axioms:"):
             axioms.append(b.strip()[:400])
-    res["closed"] = closed
-    res["open"] = axioms
     res["printed"] = len(re.findall(r"^Print Assumptions", text, re.M))
+    ok_file = closed == res["printed"] and not axioms
+    # independently: Print Assumptions for EVERY theorem of the property file
+    d = BUILD / "pa"
+    d.mkdir(parents=True, exist_ok=True)
+    pa = d / f"PA_{pid}.v"
+    pa.write_text(f"From TFP Require Import {pid}.\n" +
+        "".join(f"Print Assumptions {n}.\n" for n in names))
+    r2 = run(["coqc", "-Q", str(COQ / "theories"), "TF", "-Q", str(COQ / "props"), "TFP", str(pa)],
+        timeout, cwd=d)
+    if r2.returncode != 0:
+        res["built"] = False
+        res["log_tail"] = r2.stdout[-3000:]
+        return res
+    blocks2 = re.split(r"(?=Closed under the global context|Axioms:)", r2.stdout)
+    closed2 = sum(1 for b in blocks2 if b.startswith("Closed under the global context"))
+    axioms += [b.strip()[:400] for b in blocks2 if b.startswith("Axioms:")]
+    res["closed"] = closed2 if ok_file else min(closed, closed2)
+    res["printed"] = len(names) if ok_file else res["printed"]
+    res["open"] = axioms
     res["forbidden"] = scan_forbidden()
     res["wall_s"] = round(time.time() - t0, 2)
     # supporting lemma count: Lemma/Theorem in the theories the file requires
@@ -434,6 +451,14 @@ class Report:
         self.assumptions: list[str] = []
         self.findings = [f for f in load_findings().get("findings", [])
             if f.get("property") == pid]
+        # replays of earlier runs are stale
+        d = REPLAYS / pid
+        if d.exists():
+            for f in d.glob("*.json"):
+                try:
+                    f.unlink()
+                except OSError:
+                    pass
 
     def known(self, signature: str) -> dict | None:
         for f in self.findings:
@@ -467,7 +492,7 @@ class Report:
         obligations = len(res.get("theorems", [])) + res.get("lemmas", 0)
         ok = (res.get("built") and not res.get("open")
             and res.get("closed", 0) == res.get("printed", -1)
-            and res.get("closed", 0) >= len(res.get("theorems", []))
+            and res.get("closed", 0) >= len(res.get("theorems", [])) >= 1
             and not res.get("forbidden"))
         self.coverage.update({
             "obligations": obligations,
